@@ -28,7 +28,8 @@ LEVEL_TEXT = ("Sequences of 1-8 outbound messages over {typed request/notificati
               ' Also typed messages whose payload holds a value without a JSON image (arbitrary object, undecodable bytes), under both backends.'
               ' Also typed envelope messages carrying extra members (trace context, vendor extension).'
               ' Also typed and plain messages nested 200-600 levels, and payloads in which one container object is referenced from several places.'
-              ' Also one client object entered two or three times, each life judged like a first one; results that are a string, a number, a boolean or an array.')
+              ' Also one client object entered two or three times, each life judged like a first one; results that are a string, a number, a boolean or an array.'
+              ' Also the same message several times in a row, typed and plain, also around something unserialisable.')
 LEVEL_NOTE = ("Trusted: ScriptedProcess.stdin byte capture (thorough adds a real cat-like child and a real pipe); expected "
               "value of a typed message = its wire dict with None-valued top-level optionals omitted.")
 RULE = ("case = sequence of message specs. Non-trivial: >=2 messages or a payload with a separator character or an "
